@@ -186,7 +186,29 @@ pub trait Flavour: Sized + 'static {
     fn g_ser_writer(g: &Self::Graph, wire: Wire, w: &mut dyn Write) -> Result<(), String>;
     fn g_de(bytes: &[u8], wire: Wire) -> Result<Self::Graph, String>;
     fn g_de_reader(r: &mut dyn Read, wire: Wire) -> Result<Self::Graph, String>;
-    fn alt_round_trip(n: usize, edges: &[(usize, usize)], wire: Wire) -> Result<(String, String), String>;
+    fn alt_round_trip(n: usize, edges: &[(usize, usize)], wire: Wire, key_style: u8) -> Result<(String, String), String>;
+    /// deserialise a document whose keys are strings and whose node and edge values are `()`:
+    /// per member its key and the keys its edges lead to
+    fn alt_de(bytes: &[u8], wire: Wire) -> Result<Vec<(String, Vec<String>)>, String>;
+}
+
+/// `String` keys of several styles (the simulator's own keys are small integers): plain, long,
+/// long with multi-byte characters (no 16-byte prefix ends on a character boundary), and
+/// awkward ones (empty, blank, quotes, backslashes, digits, other scripts)
+pub fn alt_key(style: u8, k: usize) -> String {
+    match style % 4 {
+        0 => format!("k{k}"),
+        1 => format!("node-with-a-rather-long-name-{k:04}"),
+        2 => format!("x{}{k}", "é".repeat(10)),
+        _ => {
+            const W: [&str; 10] = ["", " ", "\"q\"", "a\\b", "0", "-1", "ключ", "🙂🙂🙂🙂🙂", "{}", "a b\tc"];
+            if k < W.len() {
+                W[k].to_string()
+            } else {
+                format!("{}{k}", W[k % W.len()])
+            }
+        }
+    }
 }
 
 pub trait SyncFlavour: Flavour
@@ -378,9 +400,36 @@ macro_rules! common_graph_items {
         }
         /// round trip of a graph with `String` keys, `()` node values and `()` edge values (so
         /// parallel edges are indistinguishable): description before and after
-        fn alt_round_trip(n: usize, edges: &[(usize, usize)], wire: Wire) -> Result<(String, String), String> {
+        fn alt_de(bytes: &[u8], wire: Wire) -> Result<Vec<(String, Vec<String>)>, String> {
             type G = gdsl::$m::Graph<String, (), ()>;
-            let key = |k: usize| format!("k{k}");
+            let g: G = match wire {
+                Wire::Cbor => serde_cbor::from_slice(bytes).map_err(|e| e.to_string())?,
+                Wire::JsonValue => {
+                    let v: serde_json::Value = serde_json::from_slice(bytes).map_err(|e| e.to_string())?;
+                    serde_json::from_value(v).map_err(|e| e.to_string())?
+                }
+                Wire::JsonStr => {
+                    let s = std::str::from_utf8(bytes).map_err(|e| e.to_string())?;
+                    serde_json::from_str(s).map_err(|e| e.to_string())?
+                }
+                Wire::Json => serde_json::from_slice(bytes).map_err(|e| e.to_string())?,
+            };
+            let mut d: Vec<(String, Vec<String>)> = g
+                .iter()
+                .map(|(k, node)| {
+                    let mut out: Vec<String> = Vec::new();
+                    for gdsl::$m::Edge(_, b, _) in node {
+                        out.push(b.key().clone());
+                    }
+                    (k.clone(), out)
+                })
+                .collect();
+            d.sort();
+            Ok(d)
+        }
+        fn alt_round_trip(n: usize, edges: &[(usize, usize)], wire: Wire, key_style: u8) -> Result<(String, String), String> {
+            type G = gdsl::$m::Graph<String, (), ()>;
+            let key = |k: usize| alt_key(key_style, k);
             let nodes: Vec<gdsl::$m::Node<String, (), ()>> = (0..n).map(|k| gdsl::$m::Node::new(key(k), ())).collect();
             for (u, v) in edges {
                 nodes[*u].connect(&nodes[*v], ());
